@@ -668,3 +668,243 @@ pub fn c29_sat_e10() {
 pub fn c29_sat_e32() {
   sat_inverse_in_epoch(32);
 }
+
+// ---------------------------------------------------------------------------------------------
+// C30 / C31: the sat notation parsers.  The TEXT is concrete under Kani (one string of each grammar
+// shape) and std's number parsing is under contract: `uN::from_str_radix` / `f64::from_str` may
+// return ANY value (stubs below), so every parsed component is symbolic and the arithmetic after
+// parsing is checked over the full machine range.  Natively (replay) the same harness prints the
+// recorded component values into the text and runs the real parser with the real std.
+
+static mut PARSED_U32: [u32; 3] = [0; 3];
+static mut PARSED_U32_NEXT: usize = 0;
+static mut PARSED_U64: u64 = 0;
+static mut PARSED_F64: f64 = 0.0;
+
+pub fn stub_u32_from_str_radix(_src: &str, _radix: u32) -> Result<u32, core::num::ParseIntError> {
+  unsafe {
+    let i = PARSED_U32_NEXT;
+    PARSED_U32_NEXT += 1;
+    Ok(PARSED_U32[i % 3])
+  }
+}
+
+pub fn stub_u64_from_str_radix(_src: &str, _radix: u32) -> Result<u64, core::num::ParseIntError> {
+  unsafe { Ok(PARSED_U64) }
+}
+
+pub fn stub_f64_from_str(_src: &str) -> Result<f64, core::num::ParseFloatError> {
+  unsafe { Ok(PARSED_F64) }
+}
+
+fn set_parsed(a: u32, b: u32, c: u32, d: u64) {
+  unsafe {
+    PARSED_U32 = [a, b, c];
+    PARSED_U32_NEXT = 0;
+    PARSED_U64 = d;
+  }
+}
+
+#[cfg(kani)]
+fn degree_text(_c: u32, _e: u32, _p: u32, _b: u64) -> String {
+  String::from("1°2′3″4‴")
+}
+#[cfg(not(kani))]
+fn degree_text(c: u32, e: u32, p: u32, b: u64) -> String {
+  format!("{c}°{e}′{p}″{b}‴")
+}
+#[cfg(kani)]
+fn decimal_text(_h: u32, _o: u64) -> String {
+  String::from("1.2")
+}
+#[cfg(not(kani))]
+fn decimal_text(h: u32, o: u64) -> String {
+  format!("{h}.{o}")
+}
+
+// Height::starting_sat / Height::subsidy enter the parser harnesses under their C29 contract only:
+// a deterministic function of the height (memoised), with the facts C29 proves for every u32 height
+// (c29_height_e00..e33): the subsidy is 50 coin >> (h / 210 000), zero from height 6 930 000 on; the first
+// sat is left uninterpreted apart from first sat + subsidy (= the next height's first sat) <= supply.  The stub also records the height it was called with, which
+// is how the harness observes "the height the parser decided on" without inverting sat -> height.
+static mut HC_SET: bool = false;
+static mut HC_H: u32 = 0;
+static mut HC_START: u64 = 0;
+static mut HC_SUB: u64 = 0;
+
+#[cfg(kani)]
+fn height_contract(h: u32) -> (u64, u64) {
+  unsafe {
+    if !HC_SET || HC_H != h {
+      let start: u64 = kani::any();
+      let sub: u64 = kani::any();
+      // C29.height.subsidy: exact closed form (cheap: one shift), so counterexamples replay natively
+      kani::assume(sub == spec::subsidy(h as u64));
+      kani::assume(start <= spec::SUPPLY && start + sub <= spec::SUPPLY);
+      HC_SET = true;
+      HC_H = h;
+      HC_START = start;
+      HC_SUB = sub;
+    }
+    (HC_START, HC_SUB)
+  }
+}
+#[cfg(not(kani))]
+fn height_contract(h: u32) -> (u64, u64) {
+  (Height(h).starting_sat().0, Height(h).subsidy())
+}
+
+pub fn contract_starting_sat(h: Height) -> Sat {
+  Sat(height_contract(h.0).0)
+}
+
+pub fn contract_subsidy(h: Height) -> u64 {
+  height_contract(h.0).1
+}
+
+/// the height the parser computed: under Kani the argument the contract stub was last called with,
+/// natively the height of the returned sat (real Sat::height)
+fn decided_height(_s: Sat) -> u32 {
+  #[cfg(kani)]
+  unsafe {
+    assert!(HC_SET, "C31.parser_consulted_the_height_table_before_accepting");
+    HC_H
+  }
+  #[cfg(not(kani))]
+  _s.height().0
+}
+
+/// Sat::from_degree never panics, and accepts only a degree that denotes the returned sat: the
+/// height it decides on has exactly the parsed cycle, epoch offset and period offset, the block
+/// offset is below that height's subsidy and the sat is that height's first sat plus the offset
+/// (components whose arithmetic would overflow are therefore rejected, not wrapped).
+//# props: C31, C30
+//# kind: complete (every value of the four parsed components: u32 x u32 x u32 x u64; text shape `C°E′P″B‴`)
+//# fns: Sat::from_degree
+//# assume: std integer parsing is under contract: u32/u64::from_str_radix may return any value (stub); the text structure (split_once on the four symbols) is exercised on one concrete string of the full shape
+//# assume: Height::starting_sat / Height::subsidy are under their C29 contract (memoised stub height_contract): deterministic in the height, subsidy = 50 coin >> (h / 210 000), first sat uninterpreted with first sat + subsidy <= supply
+//# timeout: 600
+#[cfg_attr(kani, kani::proof)]
+#[cfg_attr(kani, kani::unwind(36))]
+#[cfg_attr(kani, kani::stub(u32::from_str_radix, stub_u32_from_str_radix))]
+#[cfg_attr(kani, kani::stub(u64::from_str_radix, stub_u64_from_str_radix))]
+#[cfg_attr(kani, kani::stub(Height::starting_sat, contract_starting_sat))]
+#[cfg_attr(kani, kani::stub(Height::subsidy, contract_subsidy))]
+pub fn c31_from_degree_sound() {
+  let c: u32 = kani::any();
+  let e: u32 = kani::any();
+  let p: u32 = kani::any();
+  let b: u64 = kani::any();
+  set_parsed(c, e, p, b);
+  let text = degree_text(c, e, p, b);
+  if let Ok(s) = Sat::from_degree(&text) {
+    let h = decided_height(s);
+    let (start, sub) = height_contract(h);
+    assert!(b < sub, "C31.from_degree.accepted_block_offset_is_below_the_subsidy");
+    assert!(s.0 == start + b && s.0 < spec::SUPPLY, "C31.from_degree.accepted_sat_is_first_sat_of_height_plus_offset");
+    assert!(h % 210_000 == e, "C31.from_degree.accepted_epoch_offset_is_the_parsed_one");
+    assert!(h % 2016 == p, "C31.from_degree.accepted_period_offset_is_the_parsed_one");
+    assert!(h / 1_260_000 == c, "C31.from_degree.accepted_cycle_is_the_parsed_one");
+  }
+  kani::cover!(Sat::from_degree(&text).is_ok(), "some degree is accepted");
+}
+
+/// every sat's printed degree parses back to that sat.  By C29 (proved) a sat below the supply is
+/// first_sat(h) + o for exactly one (h, o) with o < subsidy(h), and its degree is
+/// (h / 1 260 000, h % 210 000, h % 2016, o); so the statement is: for every such (h, o) the parser
+/// accepts those four components, decides on height h and returns first_sat(h) + o.
+//# props: C30
+//# kind: complete (every height below 6 930 000 and every offset below its subsidy, i.e. every sat below the supply)
+//# fns: Sat::from_degree
+//# assume: std integer printing then parsing is the identity (u32/u64::from_str_radix stubbed to return the printed component)
+//# assume: Height::starting_sat / Height::subsidy are under their C29 contract (memoised stub height_contract); Sat::degree is (h/1260000, h%210000, h%2016, o) by c29_sat_derived_attributes
+//# timeout: 600
+#[cfg_attr(kani, kani::proof)]
+#[cfg_attr(kani, kani::unwind(36))]
+#[cfg_attr(kani, kani::stub(u32::from_str_radix, stub_u32_from_str_radix))]
+#[cfg_attr(kani, kani::stub(u64::from_str_radix, stub_u64_from_str_radix))]
+#[cfg_attr(kani, kani::stub(Height::starting_sat, contract_starting_sat))]
+#[cfg_attr(kani, kani::stub(Height::subsidy, contract_subsidy))]
+pub fn c30_degree_round_trip() {
+  let h: u32 = kani::any();
+  let o: u64 = kani::any();
+  kani::assume((h as u64) < spec::SUBSIDY_HEIGHTS);
+  let (start, sub) = height_contract(h);
+  kani::assume(o < sub);
+  let (c, e, p) = (h / 1_260_000, h % 210_000, h % 2016);
+  set_parsed(c, e, p, o);
+  let text = degree_text(c, e, p, o);
+  match Sat::from_degree(&text) {
+    Ok(back) => {
+      assert!(decided_height(back) == h, "C30.degree_parses_back_to_the_same_height");
+      assert!(back.0 == start + o, "C30.degree_parses_back_to_the_same_sat");
+    }
+    Err(_) => assert!(false, "C30.printed_degree_is_accepted"),
+  }
+}
+
+/// Sat::from_decimal never panics, accepts `height.offset` exactly when the offset is below that
+/// height's subsidy, and then returns that height's first sat plus the offset.  With C29 (each sat
+/// is first_sat(h) + o for exactly one such pair, and Sat::decimal prints that pair) this is both
+/// "accepts only what denotes the returned sat" (C31) and "printed decimal parses back" (C30).
+//# props: C31, C30
+//# kind: complete (every parsed height u32 and offset u64; text shape `H.O`)
+//# fns: Sat::from_decimal
+//# assume: std integer parsing is under contract: u32/u64::from_str_radix may return any value (stub); printing then parsing an integer is the identity
+//# assume: Height::starting_sat / Height::subsidy are under their C29 contract (memoised stub height_contract); Sat::decimal is (h, o) by c29_sat_derived_attributes
+//# timeout: 600
+#[cfg_attr(kani, kani::proof)]
+#[cfg_attr(kani, kani::unwind(36))]
+#[cfg_attr(kani, kani::stub(u32::from_str_radix, stub_u32_from_str_radix))]
+#[cfg_attr(kani, kani::stub(u64::from_str_radix, stub_u64_from_str_radix))]
+#[cfg_attr(kani, kani::stub(Height::starting_sat, contract_starting_sat))]
+#[cfg_attr(kani, kani::stub(Height::subsidy, contract_subsidy))]
+pub fn c31_from_decimal_exact() {
+  let h: u32 = kani::any();
+  let o: u64 = kani::any();
+  set_parsed(h, h, h, o);
+  let text = decimal_text(h, o);
+  let (start, sub) = height_contract(h);
+  match Sat::from_decimal(&text) {
+    Ok(s) => {
+      assert!(o < sub, "C31.from_decimal.accepted_offset_is_below_the_subsidy");
+      assert!(decided_height(s) == h, "C31.from_decimal.accepted_height_is_the_parsed_one");
+      assert!(s.0 == start + o && s.0 < spec::SUPPLY, "C31.from_decimal.accepted_sat_is_first_sat_of_height_plus_offset");
+    }
+    Err(_) => assert!(o >= sub, "C30.printed_decimal_is_accepted"),
+  }
+  kani::cover!(Sat::from_decimal(&text).is_ok(), "some decimal is accepted");
+}
+
+#[cfg(kani)]
+fn percentile_text(_v: f64) -> String {
+  String::from("1%")
+}
+#[cfg(not(kani))]
+fn percentile_text(v: f64) -> String {
+  format!("{v}%").to_uppercase()
+}
+
+/// Sat::from_percentile never panics and accepts only a finite, non-negative percentage, returning
+/// the sat at that fraction of the supply (non-finite percentages are rejected).
+//# props: C31
+//# kind: complete (every f64 bit pattern as the parsed percentage; text shape `V%`)
+//# fns: Sat::from_percentile
+//# assume: std float parsing is under contract: f64::from_str may return any f64, including NaN and the infinities (stub)
+//# timeout: 600
+#[cfg_attr(kani, kani::proof)]
+#[cfg_attr(kani, kani::unwind(36))]
+#[cfg_attr(kani, kani::stub(<f64 as core::str::FromStr>::from_str, stub_f64_from_str))]
+pub fn c31_from_percentile_sound() {
+  let v: f64 = kani::any();
+  unsafe {
+    PARSED_F64 = v;
+  }
+  let text = percentile_text(v);
+  if let Ok(s) = Sat::from_percentile(&text) {
+    assert!(!v.is_nan() && !v.is_infinite(), "C31.from_percentile.non_finite_percentage_is_rejected");
+    assert!(v >= 0.0, "C31.from_percentile.negative_percentage_is_rejected");
+    assert!(s.0 <= Sat::LAST.0, "C31.from_percentile.accepted_sat_is_within_the_supply");
+  }
+  kani::cover!(Sat::from_percentile(&text).is_ok(), "some percentage is accepted");
+}
